@@ -202,13 +202,17 @@ ordinary blocks now. The former hypotheses (`SubsWFOld`) imply the present ones 
 inwards at shared start / end points (`RngWF`), on its rank-sorted start/stop events the stack sweep
 never runs out of stack, and the point emitted for each event carries mask length and location of
 the innermost range open just after the event (`IsHead`: open, and inside every open range). The
-stack is at all times the chain of open ranges, most recently opened first (`Inv`). -/
-theorem sweep_invariant {F : List Rng} (hF : RngWF F) (rest : List GEv) (t : Nat) (st : List Rng)
+stack is at all times the chain of open ranges, most recently opened first (`Inv`). `NoResume F`: a
+range of mask length 0 that starts at `afterIPv4` finds only the default range open (so the sweep's
+`resumesIPv6` rule, added with the repair "an IPv6 range that contains the IPv4 range continues after
+it", does not fire). -/
+theorem sweep_invariant {F : List Rng} (hF : RngWF F) (hN : NoResume F) (rest : List GEv) (t : Nat)
+    (st : List Rng)
     (hc : Cut F t rest) (hinv : Inv F t st) :
     ∃ hs : List Rng, hs.length = rest.length ∧
       sweep (rest.map GEv.pt) (st.map tag) = some ((rest.zip hs).map outPt) ∧
       ∀ gh ∈ rest.zip hs, IsHead F (grank gh.1) gh.2 ∧ (gh.1.kind = .start → gh.2 = gh.1.r) :=
-  sweep_ghost hF rest t st hc hinv
+  sweep_ghost hF hN rest t st hc hinv
 
 /-- **rearrange_lpm** (FULL theorem, table form): for the subnets of one map satisfying W0, W1, W3,
 `Rearrange()` succeeds and the predecessor of `(a, req)` in its output, in database key order
@@ -359,7 +363,8 @@ example : lpmRes (exSubnetsW2.map declOf) [0, 7] 0xffff00010203 128 = (some [1, 
 
 /-! ### 5. the well-formedness conditions of the range-point table are necessary
 
-W3 is (`w3_needed`, `w3_error`, `w3_needed_v6`); W2 no longer is (the `example` below). -/
+W3 still is in part (`w3_needed`, `w3_error` — both still hold after the second repair); W2 no longer is, nor
+is W3 for the blocks that reach beyond the IPv4 range (the `example`s below). -/
 
 /-- the value of a successful outcome -/
 def okVal {α : Type} : Res α → Option α
@@ -391,24 +396,55 @@ example :
     lpmRes (w2Subnets.map declOf) [0, 7] 0xffffc0a80100 120 = (none, 0) := by
   decide +kernel
 
-/-- `%bb,::/64` alone — an IPv6-family block containing `::ffff:0:0/96`, the kind of block the IPv6
-half of the former W2 excluded and W3 still excludes -/
-def w3SubnetsV6 : List Subnet :=
+/-- `%bb,::/64` alone, and `%aa,::/1` with `%bb,8000::/1`: IPv6-family blocks that contain the IPv4
+range `::ffff:0:0/96` and reach beyond it -/
+def v6Subnets64 : List Subnet :=
   [{ lo := some [98, 98], ip := natToIP 0, ones := 64, lmap := [0, 7] }]
 
-/-- the implicit IPv4 null range and the implicit upper null range `[::1:0:0:0, …)` open inside the
-`/64` and the `/64`'s stop pops the wrong entry: client `::1:0:0:5/128` (inside `::/64`) gets no
-location, client `1::/128` (outside) gets `bb`/64 — the specification says the opposite (W3 is
-necessary for `::/n`, 0 < n ≤ 80, too) -/
-theorem w3_needed_v6 :
-    (rangePointKVs w3SubnetsV6).map (fun kvs =>
+def v6SubnetsHalves : List Subnet :=
+  [{ lo := some [97, 97], ip := natToIP 0, ones := 1, lmap := [0, 7] },
+   { lo := some [98, 98], ip := natToIP (2 ^ 127), ones := 1, lmap := [0, 7] }]
+
+/-- The former W3 witness `w3_needed_v6`, now positive: with `{::/64 → bb}` client `::1:0:0:5/128`
+(inside the block, right after the IPv4 range) gets `bb`/64, client `1::/128` (outside) and the IPv4
+client `9.9.9.9/32` get no location, as `Spec.lpm` says.
+Before commit "fix: an IPv6 range that contains the IPv4 range continues after it" this was false: the
+pseudo start point at `::1:0:0:0` (where the IPv6 default range resumes after the IPv4 range) was
+pushed on the stack inside the `/64`, the `/64`'s end popped it instead of the `/64`, and
+`::1:0:0:5/128` got no location while `1::/128` got `bb`/64. -/
+example :
+    (rangePointKVs v6Subnets64).map (fun kvs =>
       [okVal (getLocationRdb (Store.ofKVs kvs)
          { ip16 := natToIP (2 ^ 48 + 5), ipLen4 := false, maskOnes := 128, maskBits := 128 } [0, 7]),
        okVal (getLocationRdb (Store.ofKVs kvs)
-         { ip16 := natToIP (2 ^ 112), ipLen4 := false, maskOnes := 128, maskBits := 128 } [0, 7])])
-      = some [some (none, 0), some (some [98, 98], 64)] ∧
-    lpmRes (w3SubnetsV6.map declOf) [0, 7] (2 ^ 48 + 5) 128 = (some [98, 98], 64) ∧
-    lpmRes (w3SubnetsV6.map declOf) [0, 7] (2 ^ 112) 128 = (none, 0) := by
+         { ip16 := natToIP (2 ^ 112), ipLen4 := false, maskOnes := 128, maskBits := 128 } [0, 7]),
+       okVal (getLocationRdb (Store.ofKVs kvs)
+         { ip16 := Net.v4Prefix ++ [9, 9, 9, 9], ipLen4 := false, maskOnes := 32, maskBits := 32 } [0, 7])])
+      = some [some (some [98, 98], 64), some (none, 0), some (none, 0)] ∧
+    lpmRes (v6Subnets64.map declOf) [0, 7] (2 ^ 48 + 5) 128 = (some [98, 98], 64) ∧
+    lpmRes (v6Subnets64.map declOf) [0, 7] (2 ^ 112) 128 = (none, 0) ∧
+    lpmRes (v6Subnets64.map declOf) [0, 7] 0xffff09090909 128 = (none, 0) := by
+  decide +kernel
+
+/-- `{::/1 → aa, 8000::/1 → bb}`: `::1:0:0:5/128` and `1::/128` get `aa`/1, `8000::1/128` gets `bb`/1,
+the IPv4 client `9.9.9.9/32` nothing (an IPv6-family block is no match for an IPv4 client).
+Before commit "fix: an IPv6 range that contains the IPv4 range continues after it" this was false:
+every client of `::/1` above the IPv4 range (`::1:0:0:5/128`, `1::/128`) got no location. -/
+example :
+    (rangePointKVs v6SubnetsHalves).map (fun kvs =>
+      [okVal (getLocationRdb (Store.ofKVs kvs)
+         { ip16 := natToIP (2 ^ 48 + 5), ipLen4 := false, maskOnes := 128, maskBits := 128 } [0, 7]),
+       okVal (getLocationRdb (Store.ofKVs kvs)
+         { ip16 := natToIP (2 ^ 112), ipLen4 := false, maskOnes := 128, maskBits := 128 } [0, 7]),
+       okVal (getLocationRdb (Store.ofKVs kvs)
+         { ip16 := natToIP (2 ^ 127 + 1), ipLen4 := false, maskOnes := 128, maskBits := 128 } [0, 7]),
+       okVal (getLocationRdb (Store.ofKVs kvs)
+         { ip16 := Net.v4Prefix ++ [9, 9, 9, 9], ipLen4 := false, maskOnes := 32, maskBits := 32 } [0, 7])])
+      = some [some (some [97, 97], 1), some (some [97, 97], 1), some (some [98, 98], 1), some (none, 0)] ∧
+    lpmRes (v6SubnetsHalves.map declOf) [0, 7] (2 ^ 48 + 5) 128 = (some [97, 97], 1) ∧
+    lpmRes (v6SubnetsHalves.map declOf) [0, 7] (2 ^ 112) 128 = (some [97, 97], 1) ∧
+    lpmRes (v6SubnetsHalves.map declOf) [0, 7] (2 ^ 127 + 1) 128 = (some [98, 98], 1) ∧
+    lpmRes (v6SubnetsHalves.map declOf) [0, 7] 0xffff09090909 128 = (none, 0) := by
   decide +kernel
 
 /-- `::8000:0:0/81` (= `[2^47, 2^48)`, an IPv6-family block containing `::ffff:0:0/96`) together with
